@@ -100,7 +100,7 @@ CHECKS = {
         "design_ref": "DESIGN.md §5 C07",
     },
     "C08": {
-        "level": "model_checking", "shards": 5, "deadline_quick": 100, "deadline_thorough": 1500,
+        "level": "model_checking", "shards": 6, "deadline_quick": 100, "deadline_thorough": 1500,
         "engine": "E-WORLD",
         "technique": "explicit-state model checking of the implementation: BFS by replay around one real gossipsub node with a per-(peer,topic) backoff monitor automaton fed by the wire log in virtual time",
         "rule": WORLD_RULE,
